@@ -344,15 +344,21 @@ func cmdCheck(args []string) int {
 			switch r.R.Answer {
 			case "sat":
 				r.Out = "known-finding"
-				fmt.Printf("KNOWN-FINDING: property=%s %s [%s; obligation %s]\n", cfg.ID, kf.What, kf.ID, o.Name)
-				findingsSeen = append(findingsSeen, kf.ID)
+				if !contains(findingsSeen, kf.ID) {
+					fmt.Printf("KNOWN-FINDING: property=%s %s [%s; obligation %s]\n", cfg.ID, kf.What, kf.ID, o.Name)
+					findingsSeen = append(findingsSeen, kf.ID)
+				} else {
+					fmt.Printf("NOTE: known finding %s also witnessed by obligation %s\n", kf.ID, o.Name)
+				}
 			case "unsat":
 				r.Out = "resolved?"
 				fmt.Printf("NOTE: known finding %s no longer reproduces (obligation %s discharged) — RESOLVED?\n", kf.ID, o.Name)
 			default:
 				r.Out = "known-finding-undecided"
-				fmt.Printf("KNOWN-FINDING: property=%s %s [%s; obligation %s; solver answered %s on the witness partition]\n", cfg.ID, kf.What, kf.ID, o.Name, r.R.Answer)
-				findingsSeen = append(findingsSeen, kf.ID)
+				if !contains(findingsSeen, kf.ID) {
+					fmt.Printf("KNOWN-FINDING: property=%s %s [%s; obligation %s; solver answered %s on the witness partition]\n", cfg.ID, kf.What, kf.ID, o.Name, r.R.Answer)
+					findingsSeen = append(findingsSeen, kf.ID)
+				}
 			}
 			continue
 		}
